@@ -96,7 +96,14 @@ def run(flags, n, v):
 	req = Request('GET' if get else 'POST', '/x', protocol=(1, 1) if reqP else (1, 0))
 	req.headers['Range'] = v
 	resp = Response(200 if st200 else 404, protocol=(1, 1) if respP else (1, 0))
-	resp.body = body(n)
+	# the representation is supplied in one of three ways: assigned, written (file position at the end), assigned and partly read
+	mode = (n + len(v)) % 3
+	if mode == 1:
+		resp.body.write(body(n))
+	else:
+		resp.body = body(n)
+		if mode == 2:
+			resp.body.read(max(1, n // 2))
 	if etag:
 		resp.headers['ETag'] = '"v1"'
 	if lastmod:
